@@ -151,7 +151,17 @@ func (s *verifSQLStmt) Query(args []driver.Value) (driver.Rows, error) {
 	if err := verifSQL.op(s.db, "query", s.q); err != nil {
 		return nil, err
 	}
-	return s.s.Query(args) //lint:ignore SA1019 basic interface on purpose
+	rows, err := s.s.Query(args) //lint:ignore SA1019 basic interface on purpose
+	if err != nil {
+		return nil, err
+	}
+	// second interposition point: the statement has executed, its result has not
+	// yet been handed to the caller
+	if err := verifSQL.op(s.db, "query-done", s.q); err != nil {
+		rows.Close()
+		return nil, err
+	}
+	return rows, nil
 }
 
 type verifSQLTx struct {
@@ -199,6 +209,9 @@ type verifOutage struct {
 func newVerifOutage() *verifOutage { return &verifOutage{wait: make(chan struct{})} }
 
 func (g *verifOutage) Hook(op verifSQLOp) error {
+	if op.Kind == "query-done" {
+		return nil
+	}
 	if op.Kind == "open" {
 		// the connection object is handed out; the outage strikes at its first use,
 		// where reads (hang) and writes (recorded, failed) can be told apart
